@@ -6,6 +6,7 @@
 // interleave point at which another virtual worker may run a whole stage task (so invocations overlap), and every "which worker
 // pops / steals next" is an explorer choice.  One case = (filter-mode sequence, tokens, items, P, item type[, stall]).
 // -p lmax=3 -p tmax=3 -p imax=4 -p pmax=3      all mode sequences of length 1..lmax over {parallel, serial_in_order, serial_out_of_order}
+// -p grow=2   : items 0..m-1 (m = 15..20) wait inside a filter until item m has passed it: the first token parked at the next serial filter lies more than one doubling beyond the 4-slot ring
 // -p grow=1   : "stalled item" variants that park >= 4 tokens behind item 0 so that input_buffer::grow relocates parked items
 #include <oneapi/tbb/parallel_pipeline.h>
 #include "vtbb.h"
@@ -15,13 +16,15 @@ static int LMAX = 3, TMAX = 3, IMAX = 4, PMAX = 3, GROW = 0;
 enum { PAR = 0, SIO = 1, SOO = 2 };
 static const tbb::filter_mode FM[] = {tbb::filter_mode::parallel, tbb::filter_mode::serial_in_order, tbb::filter_mode::serial_out_of_order};
 static const char MC[] = "pio";
-struct Case { std::vector<int> modes; int tokens, items, P, big, stallf, stallk; };
+struct Case { std::vector<int> modes; int tokens, items, P, big, stallf, stallk, stallm = 0; };
 static long nseq(int lmax) { long s = 0, p = 1; for (int l = 1; l <= lmax; l++) { p *= 3; s += p; } return s; }
 static std::vector<int> seq_of(long idx) { long p = 3; int l = 1; while (idx >= p) { idx -= p; p *= 3; l++; } std::vector<int> m(l); for (int i = 0; i < l; i++) { m[i] = (int)(idx % 3); idx /= 3; } return m; }
 // grow variants: {modes, stall filter}: item 0 is stalled inside filter `stallf` while the other workers run `stallk` tasks
 static const struct { const char* modes; int stallf; } GV[] = {{"ipi", 1}, {"ipi", 2}, {"ipo", 2}, {"ppi", 1}, {"ppo", 2}, {"iio", 2}, {"ipio", 1}, {"po", 1}, {"pi", 1}, {"ipip", 2}};
-static long ncases() { if (GROW) return (long)(sizeof GV / sizeof GV[0]) * 3 * 2 * 2 * 2 * 2; return nseq(LMAX) * TMAX * (IMAX + 1) * (PMAX - 1) * 2; }
+static long ncases() { if (GROW == 2) return (long)(sizeof GV / sizeof GV[0]) * 4 * 2 * 2; if (GROW) return (long)(sizeof GV / sizeof GV[0]) * 3 * 2 * 2 * 2 * 2; return nseq(LMAX) * TMAX * (IMAX + 1) * (PMAX - 1) * 2; }
 static Case decode(long c) { Case k; k.stallf = -1; k.stallk = 0;
+    if (GROW == 2) { int nv = (int)(sizeof GV / sizeof GV[0]); int v = (int)(c % nv); c /= nv; for (const char* q = GV[v].modes; *q; q++) k.modes.push_back(*q == 'p' ? PAR : *q == 'i' ? SIO : SOO); k.stallf = GV[v].stallf;
+        static const int SM[] = {15, 16, 17, 20}; k.stallm = SM[c % 4]; c /= 4; k.tokens = k.stallm + 6 + (int)(c % 2); c /= 2; k.items = k.tokens + 3; k.P = k.stallm + 2; k.big = (int)(c % 2); k.stallk = 0; return k; }   // far tokens: the ring must grow by more than one doubling at once
     if (GROW) { int nv = (int)(sizeof GV / sizeof GV[0]); int v = (int)(c % nv); c /= nv; for (const char* q = GV[v].modes; *q; q++) k.modes.push_back(*q == 'p' ? PAR : *q == 'i' ? SIO : SOO); k.stallf = GV[v].stallf;
         k.tokens = 5 + (int)(c % 3); c /= 3; k.items = (c % 2) ? 9 : 6; c /= 2; k.P = 2 + (int)(c % 2); c /= 2; k.big = (int)(c % 2); c /= 2; k.stallk = (c % 2) ? 8 : 5; return k; }
     k.big = (int)(c % 2); c /= 2; k.P = 2 + (int)(c % (PMAX - 1)); c /= (PMAX - 1); k.items = (int)(c % (IMAX + 1)); c /= (IMAX + 1); k.tokens = 1 + (int)(c % TMAX); c /= TMAX; k.modes = seq_of(c); return k; }
@@ -31,7 +34,7 @@ int Big::live = 0; long Big::made = 0;
 template <class T> struct Conv; template <> struct Conv<int> { static int make(int id, int off) { return id + off; } static int id(int v, int off) { return v - off; } };
 template <> struct Conv<Big> { static Big make(int id, int) { return Big(id); } static int id(const Big& v, int) { return (int)v.id; } };
 
-struct St { Case k; int L; int produced = 0, inflight = 0, maxinflight = 0, stops = 0; bool returned = false; std::vector<std::vector<int>> cnt; std::vector<int> live; std::vector<std::vector<int>> seq; int first_sio = -1; int off = 0; std::vector<int> lastorder; };
+struct St { Case k; int L; int produced = 0, inflight = 0, maxinflight = 0, stops = 0; bool returned = false; std::vector<std::vector<int>> cnt; std::vector<int> live; std::vector<std::vector<int>> seq; int first_sio = -1; int off = 0; std::vector<int> lastorder; bool far_done = false; };
 static St* S;
 static void enter(int f, int id) { St& s = *S; if (s.returned) vf_fail("filter %d invoked for item %d after parallel_pipeline had returned", f, id);
     if (id < 0 || id >= s.k.items) vf_fail("filter %d received item %d which the first filter never produced (items 0..%d)", f, id, s.k.items - 1);
@@ -40,9 +43,10 @@ static void enter(int f, int id) { St& s = *S; if (s.returned) vf_fail("filter %
     if (s.k.modes[f] != PAR && s.live[f] != 0) vf_fail("serial filter %d (%c) entered for item %d while another invocation of it is still running", f, MC[s.k.modes[f]], id);
     s.live[f]++; if (f == s.L - 1) s.lastorder.push_back(id);
     if (s.k.modes[f] == SIO) { s.seq[f].push_back(id); if (f != s.first_sio) { size_t n = s.seq[f].size(); const std::vector<int>& ref = s.seq[s.first_sio]; if (n > ref.size() || ref[n - 1] != id) vf_fail("serial_in_order filter %d processes item %d as its %zu-th item, but the first serial_in_order filter (%d) processed item %d at that position", f, id, n, s.first_sio, n <= ref.size() ? ref[n - 1] : -1); } }
-    if (f == s.k.stallf && id == 0) vtbb::run_others(s.k.stallk);
+    if (f == s.k.stallf && s.k.stallm > 0 && id < s.k.stallm) { while (!s.far_done) if (!vtbb::run_others(1)) break; }   // items 0..m-1 wait inside this filter until item m has gone past it
+    else if (f == s.k.stallf && id == 0) vtbb::run_others(s.k.stallk);
     vtbb::interleave(); }
-static void leave(int f, int id) { St& s = *S; s.live[f]--; if (f == s.L - 1) { s.inflight--; } }
+static void leave(int f, int id) { St& s = *S; s.live[f]--; if (f == s.k.stallf && id == s.k.stallm) s.far_done = true; if (f == s.L - 1) { s.inflight--; } }
 static bool produce(int& id) { St& s = *S; if (s.returned) vf_fail("the input filter was invoked after parallel_pipeline had returned");
     if (s.k.modes[0] != PAR && s.live[0] != 0) vf_fail("serial input filter invoked while another invocation of it is still running");
     if (s.produced == s.k.items) { s.stops++; return false; }
